@@ -89,9 +89,12 @@ def validate_path(mod, cfg, c, values):
     # paths that applied the uninterpreted pow / log: the model's interpretation of the
     # function is fictitious, so recorded values are not comparable; verdicts still are
     comparable = not (c.pows or c.logs)
-    for (n, a), (_, b) in zip(sym_records, conc_records) if comparable else ():
+    # a recorded list of different length (e.g. an extra 1e-10-sized trade) means the float
+    # run sits on the other side of a branch boundary: void comparison, not a disagreement
+    for (n, a), (_, b) in zip(sym_records, conc_records):
         if isinstance(a, (list, tuple)) and isinstance(b, (list, tuple)) and len(a) != len(b):
             return "tie", "record %s differs in length (float tie)" % n
+    for (n, a), (_, b) in zip(sym_records, conc_records) if comparable else ():
         if not _values_close(a, b, 1e-9, scale):
             return "mismatch", "record %s: symbolic %r vs concrete %r" % (n, a, b)
     for (n, a), (_, b) in zip(sym_obl, conc_obl):
